@@ -400,6 +400,17 @@ def r19_9(ctx):
     ctx.check(not strict and lossy >= 1, "lossy-decoding", strict[0][0] if strict else "src/renderers/", "the renderers decode output bytes lossily only (%d site(s)), no strict from_utf8" % lossy,
               "a renderer decodes output bytes with %s: a failed test case whose output has a line that is not valid UTF-8 (latin-1 text, a cut multi-byte character) makes "
               "the whole rendering fail - no report, exit 1 instead of 50" % sorted({m for _, m in strict}))
+    # (a') what the structured renderers serialise stays within what serde_yaml can write: no `serialize_bytes` in the crate's Serialize impls
+    # (serde_json writes an array of numbers, serde_yaml 0.9 answers `serialization of bytes in YAML is not implemented` - for the whole outcome list)
+    raw = []
+    for b in prog.bodies:
+        if b.promoted is None and b.crate == "scrut-lib" and "::tests" not in b.npath:
+            for bb, t in b.calls():
+                if (mname(t) or "").endswith("::serialize_bytes"):
+                    raw.append((b.loc(bb), b.npath))
+    ctx.check(not raw, "no-serialize-bytes", raw[0][0] if raw else "src/output.rs", "no Serialize impl of the crate emits raw bytes (output is serialised as lossy text)",
+              "%s serialises through serialize_bytes: the yaml renderer fails on every outcome list that contains such a value (output that is not valid UTF-8) - no "
+              "rendering, exit 1 instead of 50" % sorted({n_ for _, n_ in raw}))
     # (b) stores of the diff renderer
     r = prog.fn("UnifiedDiff::render")
     o = Origins(r)
